@@ -421,7 +421,7 @@ impl PrettyPrinter {
                     let width = column_widths.get(col).unwrap();
                     let col = col.clone();
                     let max_column_width =
-                        (remaining as f64 / (self.column_widths.len() - i) as f64) as usize;
+                        (remaining as f64 / (ordering.len() - i) as f64) as usize;
                     if *width < max_column_width {
                         remaining -= width;
                         (col, *width)
